@@ -175,6 +175,49 @@ def sc_protocol(cx, minimizer, srcs, algo, model="lin", fixed=()):
     cx.eq(tag + ":total_cov_mat-follows-parameters-after-the-fit", fit.total_cov_mat, _cov_at(pb, pt, None, model_ref_data=False))
 
 
+def sc_objective_costs(cx, ftype, cost, minimizer):
+    """the objective that is minimised (and the cost reported after the fit) is the documented cost of the declared
+    cost function, also where do_fit substitutes a pointwise variant for a diagonal covariance (Gaussian approximation,
+    default chi2): every term of the documented formula -- incl. the ln det term -- is still there"""
+    pb = B.build(cx, ftype, minimizer, cost=cost, sources=[SRC["SA"]], rho=0, n=3)  # three points, two parameters: ndf = 1
+    stubs.MODE["adversarial"] = False
+    fit = pb.fit
+    poissonlike = cost.startswith("gauss")
+
+    def before(pt):
+        full = pt if len(pt) == len(pb.par_names) else B.full_point(pb, pt)
+        if poissonlike:
+            for v in pb.model_values(full):
+                cx.assume(v > 0)
+
+    if cx.symbolic:
+        stubs.HOOKS["before_eval"] = before
+    if poissonlike:
+        for v in pb.model_values(pb.p):
+            cx.assume(v > 0)
+    cx.assume(pb.sources[0]["err"][0] > 0)
+    if ftype == "xy":
+        for i_ in range(pb.n):
+            for j_ in range(i_ + 1, pb.n):
+                cx.assume(pb.x[i_] != pb.x[j_])
+    fit.do_fit()
+    stubs.HOOKS["before_eval"] = None
+    tag = "objective/%s/%s/%s" % (ftype, cost, minimizer)
+    if cx.symbolic:
+        call, xfull, qfull = B.last_minimisation(pb)
+        q = B.full_point(pb, call["q"]) if call["kind"] == "opt.minimize" else list(call["q"])
+        cx.eq(tag + ":objective(q)==documented-cost(q)", call["fq"], pb.cost_oracle(q))
+    # after the fit: the reported cost at a new point is the documented cost (not a variant of it)
+    q2 = [cx.real("after_%s" % nm) for nm in pb.par_names]
+    for v in q2:
+        cx.assume(v != 0)
+    if poissonlike:
+        for v in pb.model_values(q2):
+            cx.assume(v > 0)
+    fit.set_parameter_values(**dict(zip(pb.par_names, q2)))
+    cx.eq(tag + ":cost_function_value-after-the-fit==documented-cost", fit.cost_function_value, pb.cost_oracle(q2))
+
+
 def sc_limits(cx, minimizer, fixed, limited):
     pb = B.build(cx, "xy", minimizer, cost="chi2_fast", model="quad", sources=[SRC["SA"]], fixed=fixed, limits=limited, rho=0)
     stubs.MODE["adversarial"] = False
@@ -342,6 +385,11 @@ def scenarios(tier, seed):
                                (("a",), (("b", "lower"),)), ((), (("a", "upper"),)), (("c",), (("a", "lower"), ("b", "upper"))), (("b",), (("c", "upper"),))):
             lim_s = "+".join(l_ if isinstance(l_, str) else "%s.%s" % l_ for l_ in limited)
             S.append(Scenario("limits/%s/fixed-%s/limited-%s" % (minimizer, "+".join(fixed) or "none", lim_s), sc_limits, family="limits/%s" % minimizer, params=dict(minimizer=minimizer, fixed=fixed, limited=limited)))
+    for ftype, cost in (("indexed", "gauss_approximation"), ("xy", "chi2"), ("hist", "gauss_approximation"), ("indexed", "chi2")):
+        for minimizer in ("scipy", "iminuit"):
+            if q and ((minimizer == "iminuit" and (ftype, cost) != ("indexed", "gauss_approximation")) or ftype == "hist"):
+                continue
+            S.append(Scenario("objective/%s/%s/%s" % (ftype, cost, minimizer), sc_objective_costs, family="objective/%s" % cost, params=dict(ftype=ftype, cost=cost, minimizer=minimizer)))
     for case in ("plain", "x-errors", "model-relative", "iterative", "limited", "fixed"):
         S.append(Scenario("numeric/%s" % case, sc_numeric, family="numeric", params=dict(case=case), concrete_only=True))
     for minimizer in ("scipy", "iminuit"):
